@@ -64,7 +64,7 @@ impl Check for C09 {
     type Case = Case;
     const ID: &'static str = "C09";
     fn runs(t: Tier) -> u64 {
-        t.pick(40_000, 3_000_000)
+        t.pick(200_000, 6_000_000)
     }
     fn generate(rng: &mut Rng, _tier: Tier, _idx: u64) -> Case {
         let ns = rng.weighted(&[6, 14, 25, 25, 15, 10, 5]);
